@@ -436,10 +436,75 @@ func runC03UpgradeAfterClose(cause string, r *rep.Report) (key, msg string) {
 	return
 }
 
+// runC03CloseInsideSend: a close cause completes while Send is between its ready-state test and
+// its flush (a packetCreate listener runs exactly there).  The packet of that Send must be
+// discarded silently: no flush, drain or any other event after the close event.
+func runC03CloseInsideSend(transport, cause string, r *rep.Report) (key, msg string) {
+	rig.Bubble(r.T(), func() {
+		so := &config.ServerOptions{}
+		so.SetTransports(types.NewSet("polling", "websocket", "webtransport"))
+		so.SetPingInterval(20 * time.Second)
+		var w *rig.World
+		var cl *rig.Client
+		armed := false
+		w = rig.NewWorld(rig.Options{Server: so, OnConnection: func(s engine.Socket) {
+			s.On("packetCreate", func(...any) {
+				if !armed {
+					return
+				}
+				armed = false
+				switch cause {
+				case "close-true":
+					s.Close(true)
+				case "server-close":
+					w.Eng.Close()
+				case "peer-disconnect":
+					cl.Stop()
+					// the reader goroutine notices and closes the session while Send is still here
+					for i := 0; i < 50 && s.ReadyState() != "closed"; i++ {
+						time.Sleep(time.Millisecond)
+					}
+				}
+			})
+		}})
+		defer w.Finish()
+		var err error
+		cl, err = w.Connect(rig.ClientCfg{Rev: 4, Transport: transport})
+		rig.Wait()
+		sock := w.Socket(0)
+		if err != nil || sock == nil {
+			key, msg = "c03-handshake-failed", fmt.Sprint(err)
+			return
+		}
+		cl.StartReader()
+		time.Sleep(time.Millisecond)
+		rig.Wait()
+		sock.Send(types.NewStringBufferString("before"), nil, nil)
+		time.Sleep(time.Millisecond)
+		rig.Wait()
+		armed = true
+		sock.Send(types.NewStringBufferString("raced"), nil, nil)
+		time.Sleep(100 * time.Millisecond)
+		rig.Wait()
+		if sock.ReadyState() != "closed" {
+			if transport == "polling" && cause == "peer-disconnect" {
+				return // a polling client that vanishes is noticed by the heartbeat only
+			}
+			key, msg = "c03-no-close-event", fmt.Sprintf("%s inside Send on %s: session is %s", cause, transport, sock.ReadyState())
+			return
+		}
+		key, msg = judgeLifecycle(w, sock.Id(), []string{cause}, true)
+		if key == "" {
+			key, msg = checkRegistry(w)
+		}
+	})
+	return
+}
+
 func TestC03(t *testing.T) {
 	r := rep.New(t, "C03")
 	defer r.Flush()
-	r.Rule("fault enumeration: every ordered pair (and single, and triple in thorough) of close causes {peer disconnect, transport error, heartbeat expiry, Close(false), Close(true), Server.Close, parse error} fired at one virtual instant on every transport, with the goroutines that passed the closed-state test held at the hook windows (socket.OnClose.window, socket.Close.window, server.Handshake.afterNewSocket) and released in every order; plus cause-free histories, plus an upgrade packet that lands after the state became closed while an application close listener is still running; oracle: per-session trace automaton (forward-only state writes, exactly one close event with an attributable reason, no session event after close, connection event only for open sessions, Send after close silent) and the registry invariant; distinct = (transport, causes, window, release order, number of goroutines held)")
+	r.Rule("fault enumeration: every ordered pair (and single, and triple in thorough) of close causes {peer disconnect, transport error, heartbeat expiry, Close(false), Close(true), Server.Close, parse error} fired at one virtual instant on every transport, with the goroutines that passed the closed-state test held at the hook windows (socket.OnClose.window, socket.Close.window, server.Handshake.afterNewSocket) and released in every order; plus cause-free histories, plus an upgrade packet that lands after the state became closed while an application close listener is still running, and a close cause that completes while Send is between its state test and its flush; oracle: per-session trace automaton (forward-only state writes, exactly one close event with an attributable reason, no session event after close, connection event only for open sessions, Send after close silent) and the registry invariant; distinct = (transport, causes, window, release order, number of goroutines held)")
 	var cases []c03Case
 	transports := []string{"polling", "websocket", "webtransport"}
 	for _, tr := range transports {
@@ -488,6 +553,20 @@ func TestC03(t *testing.T) {
 		quicClose(r, 3, r.N(8, 320), false)
 	}
 	defer func() { r.Obs("events_concurrent_with_close_same_instant_other_goroutine", c03ConcurrentWithClose.Load()) }()
+	if r.Lane == 2%r.Lanes {
+		for k := 0; k < r.N(4, 100); k++ {
+			for _, tr := range []string{"polling", "websocket", "webtransport"} {
+				for _, cause := range []string{"close-true", "server-close", "peer-disconnect"} {
+					key, msg := runC03CloseInsideSend(tr, cause, r)
+					r.Case("close-inside-send/"+tr+"/"+cause, true)
+					r.Obs("close_inside_send_cases", 1)
+					if key != "" {
+						r.Violation(key, msg, map[string]any{"lane": "a close cause completes while Send is between its state test and its flush (packetCreate listener)", "transport": tr, "cause": cause})
+					}
+				}
+			}
+		}
+	}
 	rng := r.Rand(33)
 	for i, c := range cases {
 		if !r.Mine(i) || !r.Only(i) {
